@@ -48,7 +48,7 @@ type fifoParams struct {
 	seq     []callSpec
 	buf     uint
 	window  int
-	threads int // 1: one client thread; 2: second call issued by another thread after the first returned
+	threads int  // 1: one client thread; 2: second call issued by another thread after the first returned
 	early   bool // every handler calls Release at once and keeps working (the pattern doc/ordering.md describes)
 	noSlow  bool // no straggler: every handler returns at once
 }
@@ -270,8 +270,8 @@ func fifoInstances(tier string) []Instance {
 
 func init() {
 	register(&Check{ID: "C03",
-		Rule: "every ordered pair over 11 call variants (RPC, quorum call, per-node, async, correctable, correctable stream, multicast with/without send-waiting, per-node multicast, unicast with/without send-waiting) x send buffer {0,1,2} x transport window {1,3}, issued by one client thread or by two threads ordered by happens-before, plus every triple over 7 representatives and a backlog family (three queued one-way messages, then each variant, send buffer {1,2}); node 2's first handler is slow so stragglers of earlier calls are still queued; all schedules within the deviation bound; oracle: per server the handler start order equals the issue order, no handler twice, every targeted server handles every call; an outcome is (instance, number of handler starts)",
-		Gen:  fifoInstances,
+		Rule:        "every ordered pair over 11 call variants (RPC, quorum call, per-node, async, correctable, correctable stream, multicast with/without send-waiting, per-node multicast, unicast with/without send-waiting) x send buffer {0,1,2} x transport window {1,3}, issued by one client thread or by two threads ordered by happens-before, plus every triple over 7 representatives and a backlog family (three queued one-way messages, then each variant, send buffer {1,2}); node 2's first handler is slow so stragglers of earlier calls are still queued; all schedules within the deviation bound; oracle: per server the handler start order equals the issue order, no handler twice, every targeted server handles every call; an outcome is (instance, number of handler starts)",
+		Gen:         fifoInstances,
 		Assumptions: []string{"transport is the fakegrpc model (ordered frames per stream, bounded window); quorum size 1 of 2", "interleavings up to the reported deviation bound"},
 	})
 }
